@@ -2,6 +2,8 @@
 trace-coherence oracle against PPL-ref, the SCRIPTED site script driven by the reference sampler,
 and the multiset matching of consulted sites against the reference's site list."""
 
+from . import world  # first: puts $VERIF_REPO/src in front and loads the JAX adapter before genjax
+
 import math
 import numpy as np
 import jax
